@@ -1,5 +1,5 @@
 (* Proofs/C05_table.v — C05: facts about the regenerated rule table Gen/Tab_rv_patterns.v. *)
-From PV Require Import Lib.Py Spec.RV32Decode Spec.RV32Exec Model.RvRules Gen.Tab_rv_patterns Proofs.C05_rules Gen.Tab_rv_bad.
+From PV Require Import Lib.Py Spec.RV32Decode Spec.RV32Exec Model.RvRules Gen.Tab_rv_patterns Proofs.C05_rules Gen.Tab_rv_bad Proofs.C05_mem Proofs.C05_ext Proofs.C05_ext2.
 From Coq Require Import String.
 Open Scope Z_scope.
 Open Scope list_scope.
@@ -27,13 +27,14 @@ Qed.
    (no counterexample found by the search; empty on the current source) *)
 Theorem rules_decided :
   forallb (fun n => let r := rule_at n in
-                    negb (in_scope r) || check_rule r || existsb (fun w => Nat.eqb (fst (fst w)) n) rv_rules_bad ||
+                    negb (in_scope r) || check_rule r || check_subword_bin r ||
+                    existsb (fun w => Nat.eqb (fst (fst w)) n) rv_rules_bad ||
                     existsb (Nat.eqb n) rv_rules_undecided)
           (seq 0 (List.length rv_rules)) = true.
 Proof. vm_compute. reflexivity. Qed.
 
 (* ------------------------------------------------------------------ memory / move / control rules (C05_mem.v) *)
-From PV Require Import Proofs.C05_mem Proofs.C05_ext.
+From PV Require Import Proofs.C05_mem Proofs.C05_ext Proofs.C05_ext2.
 
 Definition covered_rules2 : list string := map r_text (filter check_rule2 rv_rules).
 
@@ -60,3 +61,8 @@ Definition check_rule3 (r : rule) : bool := check_cjmp_ext r || check_unary r.
 Definition covered_rules3 : list string := map r_text (filter check_rule3 rv_rules).
 Definition proved_total : nat :=
   List.length (filter (fun r => check_rule r || check_rule2 r || check_rule3 r) rv_rules).
+
+(* wave 4: multi-instruction sub-word rows and address rows (C05_ext2.v) *)
+Definition covered_rules4 : list string := map r_text (filter check_rule4 rv_rules).
+Definition proved_total4 : nat :=
+  List.length (filter (fun r => check_rule r || check_rule2 r || check_rule3 r || check_rule4 r) rv_rules).
